@@ -53,6 +53,9 @@ API (stable; used read-only by other checks)
                                 returns True if the system went idle.
     vt.spawn(fn, name)          start an extra virtual thread running `fn()` (e.g. "the OSC thread");
                                 it runs at the next settle.
+    vt.pause()                  called BY a virtual thread (e.g. from inside a task): park right here,
+                                keeping every lock it holds, until the driver steps it again (state
+                                'preempt'); makes "a routine is in the middle of a long step" scriptable.
     vt.thread(label)            rec by label.  rec.label / .state / .deadline / .timeout / .cond /
                                 .notified / .exc (exception that killed the thread) / .done
     vt.label(obj, name)         give a Condition / lock a stable name for the log.
@@ -363,6 +366,15 @@ class Kernel:
             self._seq += 1
             me.ready_seq = self._seq
             self._park(me, 'preempt')
+
+    def pause(self):
+        me = self._me()
+        if me is None or me is self.driver:
+            raise VTimeError('pause() is for virtual threads')
+        self._log('preempt', me.label, 'pause', '')
+        self._seq += 1
+        me.ready_seq = self._seq
+        self._park(me, 'preempt')
 
     def _block_on_lock(self, me, lock):
         owner = lock._owner
